@@ -107,3 +107,17 @@ def run(case, ctx):
     return {"nontrivial": len(pieces) >= 2 and (cut or evb), "fails": fails,
             "shape": (case["stratum"], case["mode"], min(len(pieces), 4), cut, evb, shared),
             "observed": {"pieces": len(pieces), "durations": [obs(p)["dur"] for p in pieces][:8], "source": before["dur"]}}
+
+
+def _corpus_body(rng, k):
+    from vmon import corpus
+    desc, w = corpus.window(rng, min_len=48, max_len=600)
+    caps = [rng.choice([24, 48, 96, 72, 30, 7, 144]) for _ in range(rng.randint(1, 6))]
+    desc["caps"] = caps
+    ps = w.split(list(caps))
+    return desc, len(ps) >= 2
+
+
+def phases(tier):
+    from vmon import corpus
+    return [("corpus", corpus.phase(300, 20000, _corpus_body))]
